@@ -125,8 +125,63 @@ def detect(sid, props=None):
         shutil.rmtree(tmp, ignore_errors=True)
 
 
+def import_ref(src, rid):
+    d = os.path.join(HERE, "refactors", rid)
+    os.makedirs(d, exist_ok=True)
+    for f in ("patch.diff", "meta.json"):
+        shutil.copy(os.path.join(src, f), os.path.join(d, f))
+    print("imported refactor", rid)
+
+
+def refcheck(rid):
+    """Run every check on a scratch copy with the refactoring applied: any exit != 0 is a false alarm."""
+    global SEEDED
+    d = os.path.join(HERE, "refactors", rid)
+    tmp = tempfile.mkdtemp(prefix="refdet_")
+    try:
+        shutil.copytree("/repo/rockit", os.path.join(tmp, "rockit"))
+        rc, out = sh(["patch", "-p1", "-s", "-f", "-d", tmp, "-i", os.path.join(d, "patch.diff")])
+        if rc != 0:
+            print(rid, "PATCH DOES NOT APPLY", out[-200:])
+            return None
+        env = dict(os.environ, ROCKIT_REPO=tmp)
+        code = ("import sys, json; sys.setrecursionlimit(20000); sys.path.insert(0, %r); from rkverif.core import run_property\n"
+                "out = {}\n"
+                "for pid in %r:\n"
+                "    try:\n"
+                "        c, ctx, new, known = run_property(pid, write=False, quiet=True)\n"
+                "        out[pid] = {'exit': c, 'findings': [f.key + ' @' + str(f.file) + ':' + str(f.line) for f in new], 'errors': [r + ': ' + m[:300] for r, m in ctx.errors]}\n"
+                "    except Exception as e:\n"
+                "        out[pid] = {'exit': 2, 'findings': [], 'errors': [str(e)[:300]]}\n"
+                "print(json.dumps(out))\n") % (HERE, claimed())
+        rc, out = sh(["/venv/bin/python", "-I", "-c", code], env=env)
+        res = json.loads(out.strip().splitlines()[-1])
+        alarms = {p: r for p, r in res.items() if r["exit"] != 0}
+        mp = os.path.join(d, "meta.json")
+        meta = json.load(open(mp))
+        meta["alarms"] = {p: (r["findings"] or r["errors"]) for p, r in alarms.items()}
+        json.dump(meta, open(mp, "w"), indent=1)
+        if alarms:
+            print("%-8s FALSE ALARM in %s" % (rid, sorted(alarms)))
+            for p, r in alarms.items():
+                for x in (r["findings"] + r["errors"])[:3]:
+                    print("      %s: %s" % (p, x[:260]))
+        else:
+            print("%-8s silent" % rid)
+        return alarms
+    finally:
+        shutil.rmtree(tmp, ignore_errors=True)
+
+
 if __name__ == "__main__":
     cmd = sys.argv[1]
+    if cmd == "import-ref":
+        import_ref(sys.argv[2], sys.argv[3]); sys.exit(0)
+    if cmd == "refcheck":
+        ids = sys.argv[2:] or sorted(os.listdir(os.path.join(HERE, "refactors")))
+        for rid in ids:
+            refcheck(rid)
+        sys.exit(0)
     if cmd == "import":
         do_import(sys.argv[2], sys.argv[3])
     elif cmd == "confirm":
